@@ -4,7 +4,14 @@
 (* decoded result) pairs from the real deserializer, and routing records from   *)
 (* the real transport.  One trace = a handful of independent records; the first  *)
 (* failing clause is the verdict of the trace.                                   *)
-EXTENDS KafkaWire, Json, IOUtils
+(*                                                                               *)
+(* "Late reply" traces (events LReq / LReply / LDone / LEnd) are histories of    *)
+(* one live connection judged by the KafkaCorrAbs machine: the byte-level part   *)
+(* is done here (the request frame is decoded and judged by ReqCheck / HdrCheck, *)
+(* the correlation id is the one found in the frame by the spec's decoder, the   *)
+(* broker's reply bytes are decoded by the spec's decoder and compared with what *)
+(* the caller was given), the routing clauses are KafkaCorrAbs's.                *)
+EXTENDS KafkaWire, KafkaCorrAbs, Json, IOUtils
 
 Traces == ndJsonDeserialize(IOEnv.TRACE_FILE)
 
@@ -17,6 +24,39 @@ TInit == /\ tid \in 1..Len(Traces)
          /\ l = 1
          /\ verdict = "ok"
          /\ AInit
+         /\ LInit
+
+\* ---- late-reply events: bytes -> KafkaCorrAbs
+\* LReq: e = [r, api, topic, partition, acks, payloads, corr, cid, frame, sent, braised, hraised]
+\* frame = the bytes the client wrote while the request was being issued (sent = 0: none, and nothing raised:
+\* there is no request to judge)
+LReqEvCheck(e) ==
+  IF LReqCheck(e.r) # "ok" THEN LReqCheck(e.r)
+  ELSE IF e.sent = 0 /\ e.braised = "none" /\ e.hraised = "none" THEN "ok"
+  ELSE IF e.api = ProduceKey THEN ReqCheck(e)
+  ELSE HdrCheck(e)
+FrameCorr(f) == LET h == DecRequest(f) IN IF h.ok THEN h.val.corr ELSE -1
+LReqEvUpd(e) == LReqUpd(e.r, e.api, FrameCorr(e.frame))
+
+\* LReply: e = [w, api, bytes]   (bytes: the message the broker encoded, without the size prefix)
+ReplyDec(api, bytes) == IF api = ProduceKey THEN DecProduceResponse(bytes) ELSE DecMetadataResponse(bytes)
+LReplyEvCheck(e) ==
+  IF ~IsBytes(e.bytes) \/ ~ReplyDec(e.api, e.bytes).ok THEN "harness.brokerBytes"
+  ELSE LReplyCheck(e.w, ReplyDec(e.api, e.bytes).val.corr)
+LReplyEvUpd(e) == LReplyUpd(e.w, e.api, ReplyDec(e.api, e.bytes).val.corr, e.bytes)
+
+\* LDone: e = [r, api, raised, out, brokers, topics]: what the caller of r was given.
+\* A reply matches if, decoded by the spec as the kind of response the request expects, it is exactly that.
+RespMatches(rep, e) ==
+  /\ rep.api = e.api
+  /\ IF e.api = ProduceKey
+     THEN PRespCheck([bytes |-> rep.c, raised |-> "none", out |-> e.out]) = "ok"
+     ELSE MRespCheck([bytes |-> rep.c, raised |-> "none", brokers |-> e.brokers, topics |-> e.topics]) = "ok"
+Matching(e) == IF e.raised # "none" THEN {} ELSE {k \in DOMAIN lrep : RespMatches(lrep[k], e)}
+LDoneEvCheck(e) == LDoneCheck(e.r, e.raised, Matching(e))
+LDoneEvUpd(e)   == LDoneUpd(e.r, e.raised, Matching(e))
+
+IsLate(e) == e.e \in {"LReq", "LReply", "LDone", "LEnd"}
 
 CheckOf(e) ==
   CASE e.e = "Req"   -> ReqCheck(e)
@@ -25,18 +65,29 @@ CheckOf(e) ==
     [] e.e = "PResp" -> PRespCheck(e)
     [] e.e = "MResp" -> MRespCheck(e)
     [] e.e = "Route" -> RouteCheck(e)
+    [] e.e = "LReq"   -> LReqEvCheck(e)
+    [] e.e = "LReply" -> LReplyEvCheck(e)
+    [] e.e = "LDone"  -> LDoneEvCheck(e)
+    [] e.e = "LEnd"   -> LEndCheck(e.unread)
     [] OTHER -> "harness.unknownEvent"
+
+LUpdOf(e) ==
+  CASE e.e = "LReq"   -> LReqEvUpd(e)
+    [] e.e = "LReply" -> LReplyEvUpd(e)
+    [] e.e = "LDone"  -> LDoneEvUpd(e)
+    [] e.e = "LEnd"   -> LEndUpd
 
 TNext == /\ verdict = "ok"
          /\ l <= Len(Ev)
          /\ LET e == Ev[l]
                 chk == CheckOf(e)
             IN IF chk = "ok"
-               THEN AUpd /\ l' = l + 1 /\ verdict' = "ok"
-               ELSE verdict' = chk /\ l' = l /\ UNCHANGED avars
+               THEN /\ AUpd /\ l' = l + 1 /\ verdict' = "ok"
+                    /\ IF IsLate(e) THEN LUpdOf(e) ELSE UNCHANGED lvars
+               ELSE verdict' = chk /\ l' = l /\ UNCHANGED <<avars, lvars>>
          /\ UNCHANGED tid
 
-TSpec == TInit /\ [][TNext]_<<avars, tvars>>
+TSpec == TInit /\ [][TNext]_<<avars, lvars, tvars>>
 
 Done == verdict # "ok" \/ l > Len(Ev)
 Report == Done => PrintT(<<"V", tid, l - 1, verdict>>)
